@@ -674,9 +674,12 @@ impl Runtime {
             p.buf[..n.min(p.buf.len())].to_vec()
         };
         if self.knobs.flush_resets_first {
-            let data = take(n);
+            // Guile's own order (ports.c, scm_i_write): read the cursors, reset the buffer, then write
+            // the bytes out of that same buffer — what another thread puts at its start in between
+            // goes out in place of the first bytes, and stays buffered as well
             self.ports.lock().unwrap()[port].cursor = 0;
             self.point();
+            let data = take(n);
             self.emit(port, &data);
         } else {
             let data = take(n);
